@@ -641,6 +641,10 @@ def feature_keys(T: dict) -> tuple[list[str], list[str]]:
         for k in e["feats"]:
             if k not in eks:
                 eks.append(k)
+    if T.get("seg") is not None:
+        # a core measurement that is switched off (not in the registry) while stray values of it sit on
+        # some nodes: the importers recompute it from the array, it is not a "loaded" feature
+        ks = [k for k in ks if not (k in ("area", "pos") and k not in T.get("registry", [k]))]
     return ks, eks
 
 
@@ -696,6 +700,13 @@ def diff_tables(fmt: str, T: dict, T2: dict, ks, eks, extra: dict | None = None)
                 out.append((f"C14|{fmt}|{tag}", f"node {n}: {fld} before {a[n][fld]} after {b[n][fld]}"))
         keys = ks if ks is not None else sorted(set(a[n]["feats"]) | set(b[n]["feats"]))
         for k in keys:
+            if (fmt != "internal" and T.get("seg") is not None and k in ("area", "pos")
+                    and k not in T.get("registry", [k])):
+                # a core measurement that was SWITCHED OFF when the file was written (its stored values
+                # may be missing or stale: C10 freezes them): the importer's constructor computes the
+                # core measurements of every node from the array, so what comes back is recomputed,
+                # not loaded — outside C14's "loaded rather than recomputed"
+                continue
             if a[n]["feats"].get(k) != b[n]["feats"].get(k):
                 out.append((f"C14|{fmt}|feature-differs",
                             f"node {n}: loaded feature {k!r} before {a[n]['feats'].get(k)} after {b[n]['feats'].get(k)}"))
@@ -2096,6 +2107,13 @@ def run(prop: str, tier: str, seed: int, intensify: bool = False) -> Result:
     with get_context("fork").Pool(n) as pool:
         for r in pool.imap_unordered(_shard, jobs):
             res.merge(r)
+    # a change that makes the construction of the objects under test fail must not pass vacuously
+    nb = sum(v for k, v in res.distribution.items() if k.startswith("skipped:case-not-buildable:"))
+    if nb > max(8, 0.05 * (nb + res.evaluations)) or res.evaluations == 0:
+        res.failures.append(Failure("oracle", prop, f"{prop}|construction|objects-under-test-cannot-be-built",
+                                    f"{nb} cases could not be constructed ("
+                                    + ", ".join(sorted(k.rsplit(':', 1)[1] for k in res.distribution if k.startswith('skipped:case-not-buildable:')))
+                                    + f"); {res.evaluations} evaluations made", {"not_buildable": nb}))
     # one failure per signature, smallest replay first
     res.failures.sort(key=lambda f: (f.kind != "oracle", f.signature, len(json.dumps(f.replay, default=str))))
     uniq: dict[tuple[str, str], Failure] = {}
